@@ -746,8 +746,7 @@ pub fn run_plan(plan: &C11Plan, want_trace: bool) -> RunOut {
             let frame = &replies[i];
             let dbg = it.res.as_ref().unwrap();
             let own = seqs::own_decodes(frame);
-            let ok = seqs::split_variant(dbg).map(|(_, inner)| own.iter().any(|o| o == inner)).unwrap_or(false);
-            if !ok {
+            if seqs::item_matches_own_decode(dbg, frame) == Some(false) {
                 out.fail("item_content", sig.clone(), format!("item {i} is {dbg}, packet decodes on its own as {:?}", own));
             }
             if let Some(end) = answer_ends.get(i) {
